@@ -109,3 +109,12 @@ func TestSolidusIsSelfClosing(t *testing.T) {
 		t.Errorf("tokenize: %+v", tk)
 	}
 }
+
+func TestStdDecodeText(t *testing.T) {
+	for in, want := range map[string]string{"a&#9 b": "a\t b", "&#x;": "&#x;", "&#;": "&#;", "&#x100000041;": "\uFFFD", "&#4294967361;": "\uFFFD", "&#0x": "\uFFFDx", "&#65;&#x42": "AB",
+		"&#x80;": "\u20ac", "&#xD800;": "\uFFFD", "&amp;&lt;b&gt;": "&<b>", "&notit;": "\u00acit;", "a & b": "a & b", "&#13;": "\r", "&#1234567;": "\uFFFD"} {
+		if got := stdDecodeText(in); got != want {
+			t.Errorf("stdDecodeText(%q) = %q, want %q", in, got, want)
+		}
+	}
+}
